@@ -783,6 +783,11 @@ func (wc *watchClient) Watch(ctx context.Context, key string, opts ...clientv3.O
 				w.ch <- clientv3.WatchResponse{Canceled: true}
 				return
 			}
+			// (a Go select with several ready cases picks one at random, which no seed controls: if the
+			// watch has been cancelled by now, that decides)
+			if ctx.Err() != nil {
+				return
+			}
 			select {
 			case w.ch <- clientv3.WatchResponse{Header: pb.ResponseHeader{Revision: batch[len(batch)-1].Kv.ModRevision}, Events: batch}:
 			case <-ctx.Done():
